@@ -8,7 +8,7 @@ V=/tmp/vb_T19
 SC=/tmp/sc_T19_probe
 CQ=/tmp/sc_T19_probe_coq
 D=$V/docs/tie_tests/T19
-FILES="gen/Loader2_gen.v gen/Loader2Grammar_gen.v theories/Loader2GenProofs.v theories/Loader2OmenFacts.v theories/Loader2GrammarGenProofs.v theories/Loader2GrammarFacts.v"
+FILES="gen/Loader2_gen.v gen/Loader2Grammar_gen.v theories/Loader2GenProofs.v theories/Loader2OmenFacts.v theories/Loader2RoundTrip.v theories/Loader2GrammarGenProofs.v theories/Loader2GrammarFacts.v"
 git -C /repo worktree remove --force $SC >/dev/null 2>&1
 git -C /repo worktree add --detach $SC HEAD >/dev/null 2>&1 || exit 1
 rm -rf $CQ; mkdir -p $CQ; rsync -a --exclude cases $V/coq/ $CQ/
@@ -22,7 +22,7 @@ for diff in $D/*.diff; do
   for f in $FILES; do
     [ -f $f ] || continue
     # a file that imports one that failed is not looked at (its failure would only repeat the first one)
-    case "$f:$res" in theories/Loader2OmenFacts.v:*Loader2GenProofs.v*|theories/Loader2OmenFacts.v:*Loader2_gen.v*|theories/Loader2GenProofs.v:*Loader2_gen.v*) continue;; esac
+    case "$f:$res" in theories/Loader2OmenFacts.v:*Loader2GenProofs.v*|theories/Loader2OmenFacts.v:*Loader2_gen.v*|theories/Loader2GenProofs.v:*Loader2_gen.v*|theories/Loader2RoundTrip.v:*Loader2GenProofs.v*|theories/Loader2RoundTrip.v:*Loader2_gen.v*) continue;; esac
     case "$f:$res" in theories/Loader2GrammarFacts.v:*Loader2GrammarGenProofs.v*|theories/Loader2GrammarFacts.v:*Loader2Grammar_gen.v*|theories/Loader2GrammarGenProofs.v:*Loader2Grammar_gen.v*) continue;; esac
     timeout 900 coqc -Q theories Pcfg -Q gen PcfgGen $f > /tmp/sc_T19_probe.log 2>&1 || { res="$res $f does not check: $(grep -A4 '^File' /tmp/sc_T19_probe.log | tr '\n' ' ' | cut -c1-260);"; }
   done
